@@ -138,6 +138,12 @@ func (node *UniqueIDNode) Equals(node2 Node) bool {
 		u1, err1 := node.UUID()
 		u2, err2 := n2.UUID()
 
+		// Identifiers that cannot be parsed can only be compared as they are
+		// written, otherwise such a node would not even equal a copy of itself.
+		if err1 != nil && err2 != nil {
+			return node.Value() == n2.Value()
+		}
+
 		if err1 != nil || err2 != nil {
 			return false
 		}
